@@ -36,7 +36,7 @@ PROPS = {
     "C05": {"builds": BOTH, "mc": [WRAP[0], WRAP[2], REL]},
     "C06": {"builds": BOTH, "mc": [FF, OPT[0]]},
     "C07": {"builds": BOTH, "mc": [FF, WRAP[0]]},
-    "C08": {"builds": BOTH, "mc": WRAP},
+    "C08": {"builds": BOTH, "mc": WRAP + [REL]},
     "C09": {"builds": BOTH, "mc": [REL]},
     "C10": {"builds": BOTH, "mc": [ANSI]},
     "C11": {"builds": BOTH, "mc": [WORDS]},
@@ -50,7 +50,7 @@ PROPS = {
     "C19": {"builds": ["full"], "mc": [INDENT]},
     "C20": {"builds": BOTH, "mc": [COLUMNS]},
 }
-_KINDS = {"C05": ["wrap", "c05"], "C09": ["c09"], "C13": ["c13"], "C14": ["c14"], "C15": ["c15", "unfill"], "C16": ["c16"],
+_KINDS = {"C05": ["wrap", "c05"], "C09": ["c09"], "C13": ["c13"], "C14": ["c14"], "C15": ["c15", "unfill"], "C16": ["c16"], "C08": ["wrap"],
           "C18": ["dedent", "c18"], "C19": ["indent"], "C06": ["frag"], "C07": ["frag", "wrap"], "C03": ["frag", "wrap"]}
 for _k, _v in _KINDS.items():
     PROPS[_k]["replay_kinds"] = _v
